@@ -195,7 +195,7 @@ def run(ctx):
             else:
                 r7.violation(key, "the receiver's Reed-Solomon code is built with %s where the sender uses %s: symbols the two codes do not share are "
                                   "dropped or misdecoded" % (show(e, 80), what), s.loc)
-    r7.floor(6, "codec constructor arguments")
+    r7.floor(3, "codec constructor arguments")
 
     r4 = ctx.rule("C02.R4", "RSGalois8Codec::can_decode is true iff received >= k; NoCodeDecoder::can_decode is true iff "
                             "received == number of shards", "E3 decision table")
